@@ -78,6 +78,66 @@ def run_gsfetch_for(ctx, clauses):
     return n_ok
 
 
+# C04's share of the evm harness ("It does not depend on ... which guardian computes it ... every honest guardian observing the
+# same message signs the same 32 bytes"): what the EVM watcher hands to the processor for one on-chain message must be that
+# message - in particular with the time of the block its receipt points to at that moment - on the log path and on the
+# re-observation path, whatever the watcher resolved earlier.  C10 owns these clauses; C04 runs the harness part `c04` (the
+# same-height reorg histories, harness/ethereum/evm_gen_verif_test.go sameHeightCases) and reports them as well.
+C04_CLAUSES = ("forwarded-timestamp-not-block-time", "forwarded-altered")
+
+
+def run_reobs_for_c04(ctx):
+    """Run the evm harness part `c04` against vlib.REPO in a scratch directory of its own and judge it with drv_evm; keep only the
+    Spec verdicts whose clause is in C04_CLAUSES (everything else the part shows belongs to C10 and is reported there; a broken
+    harness is reported).  Self-sufficient: builds drv_evm when the caller's ctx.prove did not list the family."""
+    outer = ctx.work
+    ctx.work = os.path.join(vlib.WORK, "%s.evm.%d" % (ctx.pid, os.getpid()))
+    shutil.rmtree(ctx.work, ignore_errors=True)
+    os.makedirs(ctx.work, exist_ok=True)
+    n_broken, n_spec = len(ctx.broken), len(ctx.spec_violations)
+    try:
+        if not _ensure_evm_driver(ctx):
+            return 0
+        ov = ctx.overlay(OVERLAY, p2p_stub=True)
+        if ov is None:
+            return 0
+        src = os.path.join(ctx.work, "evm.cases")
+        rc, out = ctx.go_test("node", "./pkg/ethereum", "^TestVerifEvm$", ov, env={"VERIF_PART": "c04"}, timeout=300)
+        if rc != 0 or not os.path.exists(src) or os.path.getsize(src) == 0:
+            ctx.broken.append(("tie", "go-harness:evm(c04)", out[-1200:]))
+            return 0
+        ops = {}
+        sample = []
+        with open(src) as f:
+            for ln in f:
+                op = ln.split(" ", 1)[0]
+                ops[op] = ops.get(op, 0) + 1
+                if op == "reobs" and len(sample) < 1:
+                    sample.append(ln.strip()[:500])
+        keep = {k: ctx.cov.get(k) for k in ("traces_validated_against_impl", "driver_stats")}
+        before = len(ctx.spec_violations)
+        n_ok, stats = ctx.judge("evm", src, classify)
+        kept = [v for v in ctx.spec_violations[before:] if v["key"] in C04_CLAUSES]
+        dropped = len(ctx.spec_violations) - before - len(kept)
+        ctx.spec_violations[before:] = kept
+        if dropped:
+            ctx.notes.append("%d Spec verdicts of the evm same-height reorg histories belong to C10" % dropped)
+        for k, v in keep.items():
+            if v is not None:
+                ctx.cov[k] = v
+        ctx.cov["evaluations"] += sum(ops.values())
+        ctx.cov["evm_same_height_reorg"] = {"ops": ops, "cases_agreed_and_held": n_ok}
+        ctx.cov["samples"] += sample
+        ctx.cov["trusted_base"] += [
+            "harness/ethereum/*_verif_test.go (fake EVM node, the real Watcher.Run; part `c04`: re-observation and log delivery across a "
+            "reorg that keeps the height) + Whv/Driver/Evm.lean for the EVM part"]
+        return n_ok
+    finally:
+        if len(ctx.broken) == n_broken and len(ctx.spec_violations) == n_spec and not os.environ.get("VERIF_KEEP"):
+            shutil.rmtree(ctx.work, ignore_errors=True)
+        ctx.work = outer
+
+
 def config_fact(ctx):
     """"(zero on chains read at finalized height)": Run reads finalized blocks iff chainID == ChainIDEthereum (modelled, tied);
     whether that watcher is constructed with waitForConfirmations=false is a fact of cmd/guardiand/node.go, re-read here."""
@@ -180,6 +240,11 @@ def run(ctx):
         "untouched, heads moving up to or past the message's depth, or down); the line carries both views and the requests in order "
         "with the view each was answered in. A handed-over message must be justified in one of the two views by the heads the watcher "
         "had seen by then (`reobs-receipt-moved`: deep enough only under a head read after the receipt had stopped pointing to the block). "
+        "Same-height reorg histories (`sh` cases, 3 configurations x 4 rounds): a transaction re-observed in block (N, h1, t1), again after it "
+        "was re-mined in (N, h2, t2) (t2 later / earlier / far), another transaction of the new block, the chain flipping back, the "
+        "transaction one block higher, a block of that height whose time lookup fails and then answers, the same change inside one request "
+        "(step mode), and on the log path a message logged in (M, hA, tA) and again in (M, hB, tB): every hand-over must carry the time of "
+        "the block the receipt points to at that moment (`forwarded-timestamp-not-block-time`, also reported by C04). "
         "Synchronised by barriers (RPC requests seen "
         "by the node, the watcher's own log lines, pointer identity of pending entries, an unbuffered request channel, goroutine "
         "states of the poller / the log goroutine); no sleeps, "
